@@ -31,8 +31,7 @@ theorem P1P2_quadratic (c : Consts) (pt : Pt) (φ : ℝ) :
        let B := -(2 * ksqrt (K2 c pt.Q2 pt.xB pt.t pt.y pt.eps2)) / (pt.y * (1 + pt.eps2))
        let C := 1 + pt.t / pt.Q2
        A * (C - A) + B * (C - 2 * A) * cos φ + -(B ^ 2) * cos φ ^ 2) := by
-  simp only [P1P2, kcos]
-  ring
+  bridge_simp [P1P2, kcos]
 
 /-- `anintP1P2` is the azimuthal integral of `P1P2` (the point's `K2` field being the value `prepare` stores) -/
 theorem anintP1P2_eq_integral (c : Consts) (pt : Pt) (hK : pt.K2 = K2 c pt.Q2 pt.xB pt.t pt.y pt.eps2)
@@ -46,7 +45,7 @@ theorem anintP1P2_eq_integral (c : Consts) (pt : Pt) (hK : pt.K2 = K2 c pt.Q2 pt
       4 * pt.K2 / (pt.y * (1 + pt.eps2)) ^ 2 := by
     rw [div_pow, neg_sq, mul_pow, hs]; norm_num
   rw [hB]
-  simp only [anintP1P2, J, kpi]
+  simp only [anintP1P2, J_eq, Jr, kpi]
   generalize pt.K2 = k2
   generalize pt.eps2 = e at he ⊢
   generalize pt.y = y at hy ⊢
@@ -62,8 +61,7 @@ theorem weight_BH_integral (c : Consts) (pt : Pt) (hK0 : 0 ≤ (prepare c pt).K2
     intro φ
     have h1 : (prepare c { pt with phi := φ }).intP1P2 = (prepare c pt).intP1P2 := rfl
     have h2 : (prepare c { pt with phi := φ }).P1P2 = P1P2 c { (prepare c pt) with phi := φ } := rfl
-    simp only [weight_BH, h1, h2, kpi]
-    ring
+    bridge_simp [weight_BH, h1, h2, kpi]
   rw [show (fun φ : ℝ => weight_BH c (prepare c { pt with phi := φ })) = _ from funext hw, integral_const_mul,
     anintP1P2_eq_integral c (prepare c pt) rfl hK0 hy he]
   have h3 : anintP1P2 c (prepare c pt) = (prepare c pt).intP1P2 := rfl
